@@ -2,7 +2,9 @@
 package fakes
 
 import (
+	"encoding/hex"
 	"errors"
+	"fmt"
 	"io"
 	"net"
 	"os"
@@ -44,6 +46,7 @@ type Conn struct {
 	Deadlines []time.Time
 	Canary    int // plain variable touched by every Write/Read (race detector judges happens-before)
 	FragMax   int // >0: deliver at most FragMax bytes per Read call
+	Log       func(ev string) // ordered log of environment calls (w:<id>:<offered hex>:<accepted>, c:<id>, d:<id>)
 }
 
 func NewConn(id int) *Conn { return &Conn{ID: id, closedCh: make(chan struct{})} }
@@ -67,6 +70,9 @@ func (c *Conn) Write(b []byte) (int, error) {
 		n, err = c.OnWrite(idx, b)
 	}
 	c.Writes = append(c.Writes, WriteEvent{Data: append([]byte{}, b...), Accepted: n, Err: err})
+	if c.Log != nil {
+		c.Log(fmt.Sprintf("w:%d:%s:%d", c.ID, hex.EncodeToString(b), n))
+	}
 	return n, err
 }
 
@@ -181,7 +187,11 @@ func (c *Conn) Close() error {
 	c.Closes++
 	first := c.Closes == 1
 	f := c.OnClose
+	lg := c.Log
 	c.mu.Unlock()
+	if lg != nil {
+		lg(fmt.Sprintf("c:%d", c.ID))
+	}
 	if first {
 		close(c.closedCh)
 	}
@@ -212,7 +222,11 @@ func (c *Conn) SetReadDeadline(t time.Time) error {
 	c.mu.Lock()
 	c.deadline = t
 	c.Deadlines = append(c.Deadlines, t)
+	lg := c.Log
 	c.mu.Unlock()
+	if lg != nil {
+		lg(fmt.Sprintf("d:%d", c.ID))
+	}
 	return nil
 }
 func (c *Conn) SetWriteDeadline(t time.Time) error { return nil }
@@ -225,6 +239,7 @@ type Factory struct {
 	Conns  []*Conn
 	Setup  func(c *Conn) // customise each new connection
 	Hook   func(op string)
+	Log    func(ev string) // n1:<id> / n0:<id>
 }
 
 var ErrDial = errors.New("fake dial error")
@@ -238,9 +253,16 @@ func (f *Factory) New() (net.Conn, error) {
 	k := f.Calls
 	f.Calls++
 	if f.FailOn[k] {
+		if f.Log != nil {
+			f.Log(fmt.Sprintf("n0:%d", len(f.Conns)))
+		}
 		return nil, ErrDial
 	}
 	c := NewConn(len(f.Conns))
+	c.Log = f.Log
+	if f.Log != nil {
+		f.Log(fmt.Sprintf("n1:%d", c.ID))
+	}
 	if f.Setup != nil {
 		f.Setup(c)
 	}
@@ -258,4 +280,26 @@ func (f *Factory) All() []*Conn {
 	f.mu.Lock()
 	defer f.mu.Unlock()
 	return append([]*Conn{}, f.Conns...)
+}
+
+// SetScript replaces the peer script (and drops bytes not yet read).
+func (c *Conn) SetScript(s []ReadStep) {
+	c.mu.Lock()
+	c.Script = append([]ReadStep{}, s...)
+	c.pending = nil
+	c.mu.Unlock()
+}
+
+// AppendScript adds steps to the peer script.
+func (c *Conn) AppendScript(s ...ReadStep) {
+	c.mu.Lock()
+	c.Script = append(c.Script, s...)
+	c.mu.Unlock()
+}
+
+// SetScriptInWrite is SetScript for use inside an OnWrite callback (the connection's
+// mutex is already held there).
+func (c *Conn) SetScriptInWrite(s []ReadStep) {
+	c.Script = append([]ReadStep{}, s...)
+	c.pending = nil
 }
